@@ -325,7 +325,8 @@ impl<'a> World<'a> {
             let sig = match p.sigs.get(i).copied().unwrap_or(0) {
                 0 => QuoteSig::Valid,
                 1 => QuoteSig::Forged,
-                _ => QuoteSig::OtherKey,
+                2 => QuoteSig::OtherKey,
+                _ => QuoteSig::OtherNodesQuote,
             };
             let c = if is_self && p.zero_content { [0u8; 32] } else if is_self && p.other_addr { other_content } else { content };
             let q = data::quote(&kp, &self.stranger_node, c, age, self.rewards, sig, self.delivered as u64 * 8 + i as u64);
@@ -483,6 +484,13 @@ impl<'a> World<'a> {
                                 // validly signed by the owner, but written for another register of the same owner
                                 all_permitted = false;
                                 return data::register_op(&foreign_base, *id, &self.reg_owners[d.who as usize % 2]);
+                            }
+                            7 => {
+                                // genuinely signed by the owner for another register, re-addressed to this one
+                                if !open {
+                                    all_permitted = false;
+                                }
+                                return data::readdressed_register_op(&foreign_base, &base, *id, &self.reg_owners[d.who as usize % 2]);
                             }
                             3 | 4 => {
                                 // an op that names a permitted source but carries the stranger's signature
